@@ -601,12 +601,11 @@ func (c *Ctx) c08Arrays(info *types.Info) {
 			return false
 		}
 		_, isRet := is.Body.List[0].(*ast.ReturnStmt)
-		b, isB := unparen(is.Cond).(*ast.BinaryExpr)
-		if !isRet || !isB || b.Op != token.NEQ {
+		_, op, isCmp := c08NilCmp(info, is.Cond) // `err != nil` or `nil != err`
+		if !isRet || !isCmp || op != token.NEQ {
 			return false
 		}
-		id, ok := unparen(b.Y).(*ast.Ident)
-		return ok && id.Name == "nil" && len(calls(is, true)) == 0
+		return len(calls(is, true)) == 0
 	}
 	nLoops := 0
 	zeroLoops := 0
@@ -719,8 +718,21 @@ func (c *Ctx) c08Arrays(info *types.Info) {
 	// flush at the end
 	last := fd.Body.List[len(fd.Body.List)-1]
 	okFlush := false
-	if rs, ok := last.(*ast.ReturnStmt); ok && len(rs.Results) == 1 && isCall(rs.Results[0], "ParserT", "nextParameter") != nil {
-		okFlush = true
+	if rs, ok := last.(*ast.ReturnStmt); ok && len(rs.Results) == 1 {
+		if isCall(rs.Results[0], "ParserT", "nextParameter") != nil {
+			okFlush = true
+		} else if id, ok := unparen(rs.Results[0]).(*ast.Ident); ok {
+			// `err := tree.nextParameter(); …; return err`: the returned local has exactly one
+			// definition, and that definition is an unconditional (top-level) statement of the function
+			o := info.ObjectOf(id)
+			if ds := localDefs(info, fd.Body)[o]; o != nil && len(ds) == 1 && ds[0] != nil && isCall(ds[0], "ParserT", "nextParameter") != nil {
+				for _, s := range fd.Body.List {
+					if as, ok := s.(*ast.AssignStmt); ok && len(as.Rhs) == 1 && as.Rhs[0] == ds[0] {
+						okFlush = true
+					}
+				}
+			}
+		}
 	}
 	c.Check(okFlush, "R08c", "arrays:flush", last.Pos(), "processStatementArrays ends with `return tree.nextParameter()` so that a non-array value (default arm) still closes its parameter")
 }
@@ -973,7 +985,13 @@ func (c *Ctx) c08GetVar(info *types.Info) {
 		}
 	}
 	c.Check(argOK, "R08d", "getVar:name", getStr.Pos(), "getVar reads Variables.GetString(string(name)) for exactly the name it was given (got %s)", c.src(getStr.Args[0]))
-	// data flow: x, err = GetString(..); x = CrLfTrimString(x.(string)); x is what the final return returns
+	// data flow: x, err = GetString(..); y = CrLfTrimString(x | x.(string)); y (x when there is no trim) is what is
+	// returned as result 0. x and y may be the same variable (`value`) or two (`s, err := GetString(..); value = Trim(s)`);
+	// the trimmed value may also be returned directly (`return CrLfTrimString(x), …`).
+	isObj := func(e ast.Expr, o types.Object) bool {
+		id, ok := unparen(e).(*ast.Ident)
+		return ok && o != nil && info.ObjectOf(id) == o
+	}
 	var valObj types.Object
 	ast.Inspect(fd.Body, func(n ast.Node) bool {
 		if as, ok := n.(*ast.AssignStmt); ok && len(as.Rhs) == 1 && unparen(as.Rhs[0]) == ast.Expr(getStr) && len(as.Lhs) == 2 {
@@ -988,22 +1006,31 @@ func (c *Ctx) c08GetVar(info *types.Info) {
 	if !flowOK {
 		why = "GetString's result is not assigned to a variable"
 	}
+	outObj := valObj      // the variable that carries the final string
+	trimReturned := false // `return CrLfTrimString(x), …` inside the arm
 	if flowOK && trim != nil {
-		// trim's argument is valObj (through a type assertion) and its result is assigned back to valObj
+		// trim's argument is valObj (possibly through a type assertion) and its result is assigned to a variable or returned
 		argIs := false
 		if len(trim.Args) == 1 {
 			a := unparen(trim.Args[0])
 			if ta, ok := a.(*ast.TypeAssertExpr); ok {
 				a = unparen(ta.X)
 			}
-			if id, ok := a.(*ast.Ident); ok && info.ObjectOf(id) == valObj {
-				argIs = true
-			}
+			argIs = isObj(a, valObj)
 		}
 		back := false
 		ast.Inspect(fd.Body, func(n ast.Node) bool {
-			if as, ok := n.(*ast.AssignStmt); ok && len(as.Rhs) == 1 && len(as.Lhs) == 1 && unparen(as.Rhs[0]) == ast.Expr(trim) {
-				if id, ok := as.Lhs[0].(*ast.Ident); ok && info.ObjectOf(id) == valObj {
+			switch v := n.(type) {
+			case *ast.AssignStmt:
+				if len(v.Rhs) == 1 && len(v.Lhs) == 1 && unparen(v.Rhs[0]) == ast.Expr(trim) {
+					if id, ok := v.Lhs[0].(*ast.Ident); ok && info.ObjectOf(id) != nil {
+						outObj = info.ObjectOf(id)
+						back = true
+					}
+				}
+			case *ast.ReturnStmt:
+				if len(v.Results) == 3 && unparen(v.Results[0]) == ast.Expr(trim) {
+					trimReturned = true
 					back = true
 				}
 			}
@@ -1015,12 +1042,12 @@ func (c *Ctx) c08GetVar(info *types.Info) {
 		}
 	}
 	if flowOK {
-		// stores to valObj inside the arm: only those two; the arm's non-error exit reaches a return of valObj
+		// stores to valObj / outObj inside the arm: only those two; the arm's non-error exit reaches a return of outObj
 		for _, s := range armList {
 			ast.Inspect(s, func(n ast.Node) bool {
 				if as, ok := n.(*ast.AssignStmt); ok {
 					for _, l := range as.Lhs {
-						if id, ok := unparen(l).(*ast.Ident); ok && info.ObjectOf(id) == valObj {
+						if isObj(l, valObj) || isObj(l, outObj) {
 							r := unparen(as.Rhs[0])
 							if r != ast.Expr(getStr) && (trim == nil || r != ast.Expr(trim)) {
 								flowOK = false
@@ -1032,19 +1059,17 @@ func (c *Ctx) c08GetVar(info *types.Info) {
 				return true
 			})
 		}
-		// the last return of the function returns valObj as result 0
+		// the last return of the function returns outObj as result 0
 		last := fd.Body.List[len(fd.Body.List)-1]
 		rs, ok := last.(*ast.ReturnStmt)
 		retOK := false
-		if ok && len(rs.Results) == 3 {
-			if id, ok := unparen(rs.Results[0]).(*ast.Ident); ok && info.ObjectOf(id) == valObj {
-				retOK = true
-			}
+		if ok && len(rs.Results) == 3 && !trimReturned {
+			retOK = isObj(rs.Results[0], outObj)
 		}
 		// or a return inside the arm itself
 		for _, s := range armList {
 			if rs, ok := s.(*ast.ReturnStmt); ok && len(rs.Results) == 3 {
-				if id, ok := unparen(rs.Results[0]).(*ast.Ident); ok && info.ObjectOf(id) == valObj {
+				if (!trimReturned && isObj(rs.Results[0], outObj)) || (trimReturned && unparen(rs.Results[0]) == ast.Expr(trim)) {
 					retOK = true
 				} else {
 					retOK = false
@@ -1052,12 +1077,12 @@ func (c *Ctx) c08GetVar(info *types.Info) {
 				}
 			}
 		}
-		// statements after the if/switch that store valObj
-		if retOK {
+		// statements after the if/switch that store outObj
+		if retOK && !trimReturned {
 			for _, s := range fd.Body.List {
 				if as, ok := s.(*ast.AssignStmt); ok {
 					for _, l := range as.Lhs {
-						if id, ok := unparen(l).(*ast.Ident); ok && info.ObjectOf(id) == valObj {
+						if isObj(l, outObj) {
 							retOK = false
 							why = "the value is overwritten after the arm: " + c.src(as)
 						}
@@ -1088,6 +1113,46 @@ func (c *Ctx) c08Trim() {
 	bad := ""
 	seen := map[rune]int{}
 	var iObj types.Object
+	// one decrement of the cut index: must be guarded by s[i-1] == K (either operand order)
+	decrement := func(id *ast.Ident, v ast.Stmt, stack []ast.Node) {
+		if iObj == nil {
+			iObj = info.ObjectOf(id)
+		} else if iObj != info.ObjectOf(id) {
+			bad = "two cut indexes"
+		}
+		found := false
+		for _, f := range factsOf(guardsAt(info, stack)) {
+			b, ok := unparen(f.E).(*ast.BinaryExpr)
+			if !ok || b.Op != token.EQL || !f.True {
+				continue
+			}
+			lhs, rhs := b.X, b.Y
+			if _, isIx := unparen(lhs).(*ast.IndexExpr); !isIx {
+				lhs, rhs = rhs, lhs // 'K' == s[i-1]
+			}
+			ix, ok := unparen(lhs).(*ast.IndexExpr)
+			if !ok {
+				continue
+			}
+			k, okK := constInt(info, rhs)
+			sid, okS := unparen(ix.X).(*ast.Ident)
+			if !okK || !okS || info.ObjectOf(sid) != sObj {
+				continue
+			}
+			// index is i-1
+			if be, ok := unparen(ix.Index).(*ast.BinaryExpr); ok && be.Op == token.SUB {
+				if one, ok := constInt(info, be.Y); ok && one == 1 {
+					if iid, ok := unparen(be.X).(*ast.Ident); ok && info.ObjectOf(iid) == info.ObjectOf(id) {
+						found = true
+						seen[rune(k)]++
+					}
+				}
+			}
+		}
+		if !found {
+			bad = "decrement " + c.src(v) + " is not guarded by s[i-1] == '\\n' / '\\r'"
+		}
+	}
 	walkStack(fd.Body, func(n ast.Node, stack []ast.Node) bool {
 		switch v := n.(type) {
 		case *ast.ForStmt, *ast.RangeStmt:
@@ -1104,48 +1169,30 @@ func (c *Ctx) c08Trim() {
 				bad = "unrecognised update " + c.src(v)
 				return true
 			}
-			if iObj == nil {
-				iObj = info.ObjectOf(id)
-			} else if iObj != info.ObjectOf(id) {
-				bad = "two cut indexes"
-			}
-			// guarded by s[i-1] == K
-			found := false
-			for _, f := range factsOf(guardsAt(info, stack)) {
-				b, ok := unparen(f.E).(*ast.BinaryExpr)
-				if !ok || b.Op != token.EQL || !f.True {
-					continue
-				}
-				ix, ok := unparen(b.X).(*ast.IndexExpr)
-				if !ok {
-					continue
-				}
-				k, okK := constInt(info, b.Y)
-				sid, okS := unparen(ix.X).(*ast.Ident)
-				if !okK || !okS || info.ObjectOf(sid) != sObj {
-					continue
-				}
-				// index is i-1
-				if be, ok := unparen(ix.Index).(*ast.BinaryExpr); ok && be.Op == token.SUB {
-					if one, ok := constInt(info, be.Y); ok && one == 1 {
-						if iid, ok := unparen(be.X).(*ast.Ident); ok && info.ObjectOf(iid) == info.ObjectOf(id) {
-							found = true
-							seen[rune(k)]++
-						}
+			decrement(id, v, stack)
+		case *ast.AssignStmt:
+			// `i -= 1` is the same decrement as `i--`
+			if v.Tok == token.SUB_ASSIGN && len(v.Lhs) == 1 && len(v.Rhs) == 1 {
+				if one, ok := constInt(info, v.Rhs[0]); ok && one == 1 {
+					if id, ok := unparen(v.Lhs[0]).(*ast.Ident); ok {
+						decrement(id, v, stack)
+						return true
 					}
 				}
 			}
-			if !found {
-				bad = "decrement " + c.src(v) + " is not guarded by s[i-1] == '\\n' / '\\r'"
-			}
-		case *ast.AssignStmt:
 			if v.Tok != token.DEFINE {
 				bad = "assignment " + c.src(v)
 			}
 		case *ast.SliceExpr:
-			// s[:i] only
+			// s[:i] (or s[0:i]) only
 			sid, ok := unparen(v.X).(*ast.Ident)
-			if !ok || info.ObjectOf(sid) != sObj || v.Low != nil || v.High == nil {
+			lowOK := v.Low == nil
+			if !lowOK {
+				if z, ok := constInt(info, v.Low); ok && z == 0 {
+					lowOK = true
+				}
+			}
+			if !ok || info.ObjectOf(sid) != sObj || !lowOK || v.High == nil || v.Slice3 {
 				bad = "returns " + c.src(v) + " (only s[:i] keeps the front of the value)"
 			}
 		}
@@ -1175,8 +1222,25 @@ func (c *Ctx) c08Store(info *types.Info) {
 				variadic = info.Defs[last.Names[0]]
 			}
 		}
-		if len(fd.Body.List) == 1 {
-			if as, ok := fd.Body.List[0].(*ast.AssignStmt); ok && as.Tok == token.ASSIGN && len(as.Lhs) == 1 && len(as.Rhs) == 1 && isField(info, as.Lhs[0], c10StatementT, "paramTemp") {
+		// leading `st := tree.statement` style aliases (pointer-typed local := selector chain, no call) are transparent:
+		// the store below is resolved through go/types to the StatementT field, not through the spelling
+		body := fd.Body.List
+		for len(body) > 1 {
+			as, ok := body[0].(*ast.AssignStmt)
+			if !ok || as.Tok != token.DEFINE || len(as.Lhs) != 1 || len(as.Rhs) != 1 || selPath(as.Rhs[0]) == "" {
+				break
+			}
+			id, ok := as.Lhs[0].(*ast.Ident)
+			if !ok {
+				break
+			}
+			if _, isPtr := info.TypeOf(id).(*types.Pointer); !isPtr {
+				break
+			}
+			body = body[1:]
+		}
+		if len(body) == 1 {
+			if as, ok := body[0].(*ast.AssignStmt); ok && as.Tok == token.ASSIGN && len(as.Lhs) == 1 && len(as.Rhs) == 1 && isField(info, as.Lhs[0], c10StatementT, "paramTemp") {
 				if call, ok := isBuiltinCall(info, as.Rhs[0], "append"); ok && len(call.Args) == 2 && call.Ellipsis.IsValid() && isField(info, call.Args[0], c10StatementT, "paramTemp") && c.sameExpr(call.Args[0], as.Lhs[0]) {
 					if id, ok := unparen(call.Args[1]).(*ast.Ident); ok && variadic != nil && info.ObjectOf(id) == variadic {
 						good = true
@@ -1196,7 +1260,6 @@ func (c *Ctx) c08Store(info *types.Info) {
 	}
 	// nextParameter
 	if fd, _ := c.MustFunc("R08f", c08Pkg, "ParserT", "nextParameter"); fd != nil {
-		defs := localDefs(info, fd.Body)
 		isF := func(e ast.Expr, name string) bool {
 			e = unparen(e)
 			if isField(info, e, c10StatementT, name) {
@@ -1230,28 +1293,30 @@ func (c *Ctx) c08Store(info *types.Info) {
 			case isF(arg, "paramTemp"):
 				c.OK("R08f", key, as.Pos(), "the collected runes are stored as the parameter unchanged")
 			case globGuard(stack):
-				// []rune(v[i]) with v the result of parseGlob
+				// []rune(v[i]) or []rune(m) inside `for _, m := range v`, with v the result of parseGlob
 				good := false
-				if conv, ok := arg.(*ast.CallExpr); ok && len(conv.Args) == 1 {
-					if tv, ok := info.Types[conv.Fun]; ok && tv.IsType() {
-						if ix, ok := unparen(conv.Args[0]).(*ast.IndexExpr); ok {
-							if id, ok := unparen(ix.X).(*ast.Ident); ok {
-								for _, d := range defs[info.ObjectOf(id)] {
-									_ = d
+				fromGlob := func(x ast.Expr) bool {
+					id, ok := unparen(x).(*ast.Ident)
+					if !ok {
+						return false
+					}
+					is := false
+					// v, err := tree.parseGlob(...)
+					ast.Inspect(fd.Body, func(m ast.Node) bool {
+						if das, ok := m.(*ast.AssignStmt); ok && len(das.Rhs) == 1 && len(das.Lhs) == 2 {
+							if dc, ok := unparen(das.Rhs[0]).(*ast.CallExpr); ok && callIs(info, dc, mx(c08Pkg), "ParserT", "parseGlob") {
+								if did, ok := das.Lhs[0].(*ast.Ident); ok && info.ObjectOf(did) == info.ObjectOf(id) {
+									is = true
 								}
-								// v, err := tree.parseGlob(...)
-								ast.Inspect(fd.Body, func(m ast.Node) bool {
-									if das, ok := m.(*ast.AssignStmt); ok && len(das.Rhs) == 1 && len(das.Lhs) == 2 {
-										if dc, ok := unparen(das.Rhs[0]).(*ast.CallExpr); ok && callIs(info, dc, mx(c08Pkg), "ParserT", "parseGlob") {
-											if did, ok := das.Lhs[0].(*ast.Ident); ok && info.ObjectOf(did) == info.ObjectOf(id) {
-												good = true
-											}
-										}
-									}
-									return true
-								})
 							}
 						}
+						return true
+					})
+					return is
+				}
+				if conv, ok := arg.(*ast.CallExpr); ok && len(conv.Args) == 1 {
+					if tv, ok := info.Types[conv.Fun]; ok && tv.IsType() {
+						good = c08RangeElem(info, conv.Args[0], stack, fromGlob)
 					}
 				}
 				c.Check(good, "R08f", key, as.Pos(), "in the possibleGlob clause the stored parameters are the converted matches of parseGlob (got %s)", c.src(arg))
@@ -1323,8 +1388,9 @@ func (c *Ctx) c08Store(info *types.Info) {
 						_ = id
 					}
 				}
-				if b, ok := unparen(f.E).(*ast.BinaryExpr); ok && b.Op == token.NEQ && f.True {
-					if id, ok := unparen(b.Y).(*ast.Ident); ok && id.Name == "nil" && len(rs.Results) == 1 && c.sameExpr(rs.Results[0], b.X) {
+				// `err != nil` / `nil != err` known true, or `err == nil` known false
+				if x, op, ok := c08NilCmp(info, f.E); ok && (op == token.NEQ) == f.True {
+					if len(rs.Results) == 1 && c.sameExpr(rs.Results[0], x) {
 						okRet = true
 					}
 				}
@@ -1340,7 +1406,7 @@ func (c *Ctx) c08Store(info *types.Info) {
 	if fd, _ := c.MustFunc("R08f", c08Pkg, "StatementT", "Parameters"); fd != nil {
 		bad := ""
 		nConv := 0
-		ast.Inspect(fd.Body, func(n ast.Node) bool {
+		walkStack(fd.Body, func(n ast.Node, stack []ast.Node) bool {
 			call, ok := n.(*ast.CallExpr)
 			if !ok {
 				return true
@@ -1352,7 +1418,8 @@ func (c *Ctx) c08Store(info *types.Info) {
 				return true
 			}
 			if tv, ok := info.Types[call.Fun]; ok && tv.IsType() && len(call.Args) == 1 {
-				if ix, ok := unparen(call.Args[0]).(*ast.IndexExpr); ok && isField(info, ix.X, c10StatementT, "parameters") {
+				// string(st.parameters[i]) or string(p) inside `for _, p := range st.parameters`
+				if c08RangeElem(info, call.Args[0], stack, func(x ast.Expr) bool { return isField(info, x, c10StatementT, "parameters") }) {
 					if b, ok := tv.Type.Underlying().(*types.Basic); ok && b.Kind() == types.String {
 						nConv++
 						return true
@@ -1364,6 +1431,80 @@ func (c *Ctx) c08Store(info *types.Info) {
 		})
 		c.Check(bad == "" && nConv == 1, "R08f", "Parameters:verbatim", fd.Pos(), "StatementT.Parameters converts each stored parameter with string(st.parameters[i]) and calls nothing else %s", bad)
 	}
+}
+
+// c08NilCmp normalises `x OP nil` / `nil OP x` (OP is == or !=): the non-nil operand and the operator.
+func c08NilCmp(info *types.Info, e ast.Expr) (ast.Expr, token.Token, bool) {
+	b, ok := unparen(e).(*ast.BinaryExpr)
+	if !ok || (b.Op != token.NEQ && b.Op != token.EQL) {
+		return nil, 0, false
+	}
+	isNil := func(x ast.Expr) bool {
+		id, ok := unparen(x).(*ast.Ident)
+		if !ok {
+			return false
+		}
+		_, isN := info.ObjectOf(id).(*types.Nil)
+		return isN
+	}
+	switch {
+	case isNil(b.Y) && !isNil(b.X):
+		return unparen(b.X), b.Op, true
+	case isNil(b.X) && !isNil(b.Y):
+		return unparen(b.Y), b.Op, true
+	}
+	return nil, 0, false
+}
+
+// c08RangeElem: e denotes one element of the collection `of` inside the loops of stack:
+// `X[i]` with of(X), or the value variable of an enclosing `for _, v := range X` with of(X)
+// (v must not be reassigned: a range value variable is only defined by the range clause).
+func c08RangeElem(info *types.Info, e ast.Expr, stack []ast.Node, of func(ast.Expr) bool) bool {
+	e = unparen(e)
+	if ix, ok := e.(*ast.IndexExpr); ok {
+		return of(ix.X)
+	}
+	id, ok := e.(*ast.Ident)
+	if !ok {
+		return false
+	}
+	o := info.ObjectOf(id)
+	for i := len(stack) - 1; i >= 0; i-- {
+		rs, ok := stack[i].(*ast.RangeStmt)
+		if !ok || rs.Tok != token.DEFINE || rs.Value == nil {
+			continue
+		}
+		vid, ok := rs.Value.(*ast.Ident)
+		if !ok || info.ObjectOf(vid) != o || o == nil {
+			continue
+		}
+		if !of(rs.X) {
+			return false
+		}
+		// no other store to the value variable inside the loop
+		stored := false
+		ast.Inspect(rs.Body, func(n ast.Node) bool {
+			switch s := n.(type) {
+			case *ast.AssignStmt:
+				for _, l := range s.Lhs {
+					if lid, ok := unparen(l).(*ast.Ident); ok && info.ObjectOf(lid) == o {
+						stored = true
+					}
+				}
+			case *ast.IncDecStmt:
+				if lid, ok := unparen(s.X).(*ast.Ident); ok && info.ObjectOf(lid) == o {
+					stored = true
+				}
+			case *ast.UnaryExpr:
+				if s.Op == token.AND && mentions(info, s.X, o) {
+					stored = true
+				}
+			}
+			return true
+		})
+		return !stored
+	}
+	return false
 }
 
 func c08IsAlloc(v ssa.Value) bool {
